@@ -205,7 +205,7 @@ class Run:
         elif k == "svc_start":
             ann.announce_service(self.instances[a["inst"]])
         elif k == "lost":
-            self.prot.connection_lost(None)
+            self.prot.connection_lost(None if self.executed % 2 else OSError("transport failed"))
 
     def on_idle(self):
         T = self.h.loop.time()
@@ -258,7 +258,7 @@ class Run:
         for t, rank, a in self.script:
             h.at(t, self.do, a, rank=rank, hops=a.get("hops", 0))
         h.run(horizon)
-        problems = h.problems()
+        problems = h.problems(allowed_logged=("ParseError", "IncompleteReadError", "OSError"))  # the injected transport failure is logged with its traceback
         # acknowledgement polarity per subscriber, in wire order
         try:
             sent = net.decode_sent(self.tr.sent)
